@@ -669,4 +669,188 @@ theorem C15_close_terminates {s : Sess} (hw : WF s) (hc : Closed s) :
           exact ⟨l :: ls, s'', Run.cons h hr, hx⟩
     exact key (mu s) s (Nat.le_refl _) hw hc
 
+/-- `update` does not re-`Put` itself once `die` is closed: fired after die it stops … -/
+theorem C15_update_stops_after_die {s s' : Sess} {n : Nat} (hd : s.die = true)
+    (h : next s (.updFire n) = some s') : s'.upd = .stopped ∧ s'.prod = s.prod := by
+  simp only [next] at h
+  split at h
+  · injection h with h; subst h; simp
+  · cases h
+
+def reputs : List Lbl → Nat
+  | [] => 0
+  | .updRun :: ls => reputs ls + 1
+  | _ :: ls => reputs ls
+
+/-- … and in every execution after Close the callback is re-queued at most once — only by an
+`update` that had already passed its `die` test when Close ran. -/
+theorem C15_update_reput_bound {s s' : Sess} {ls : List Lbl} (hc : Closed s) (hr : Run s ls s') :
+    reputs ls ≤ (if s.upd = .running then 1 else 0) := by
+  induction hr with
+  | nil => simp [reputs]
+  | @cons s s1 s2 l ls h _ ih =>
+    have ih := ih (C15_closed_stable hc h)
+    obtain ⟨hd, _⟩ := hc
+    cases l with
+    | updRun =>
+      simp only [next] at h
+      split at h
+      · rename_i hu
+        injection h with h; subst h
+        simp only [reputs, hu, if_true] at *
+        simp at ih; omega
+      · cases h
+    | updFire n =>
+      simp only [next] at h
+      split at h
+      · rename_i hu
+        injection h with h; subst h
+        have ih0 : reputs ls = 0 := by simpa using ih
+        simp [reputs, ih0]
+      · cases h
+    | ppRecv k | ppDie | produce e | rlReturn e | rlCheck n | api n | close n | closeTransport =>
+      simp only [next] at h
+      split at h
+      · injection h with h; subst h
+        simp only [reputs] at *
+        first | exact ih | (split at ih <;> simp_all)
+      · cases h
+
+/-- The reason the property says "… **and the transport**": a client session's `readLoop` that is
+blocked in `ReadFrom` on an open transport cannot return by itself after `Close` — only a read
+error (closed transport) or the arrival of a packet ends it.  With an owned connection `Close`
+closes the transport itself. -/
+theorem C15_readloop_needs_transport {s : Sess} (hr : s.rl = .reading) (ho : s.connOpen = true) :
+    next s (.rlReturn true) = none ∧ ∀ n, next s (.rlCheck n) = none := by
+  simp [next, hr, ho]
+
+theorem C15_close_owned_closes_transport {s s' : Sess} {n : Nat} (hw : s.ownConn = true)
+    (h : next s (.close n) = some s') : Closed s' := by
+  simp only [next] at h
+  split at h
+  · injection h with h; subst h
+    constructor
+    · rfl
+    · intro h1
+      have h1' : s.rl ≠ .absent := h1
+      simp [hw, h1']
+  · cases h
+
+/-- **Finding (leak)**: a session that nobody closes never stops — its `update` callback is
+re-queued forever and `postProcess` stays.  This is what happens to sessions the listener created
+(`packetInput` → `newUDPSession`) that are still in the accept backlog when the listener and the
+transport are closed: the application never saw them and `Listener.Close` does not close them. -/
+theorem C15_unclosed_session_runs_forever {s : Sess} (hw : WF s) (hd : s.die = false) (n : Nat) :
+    ∃ ls s', Run s ls s' ∧ n ≤ reputs ls ∧ s'.die = false ∧ s'.pp ≠ .exited ∧ s'.upd ≠ .stopped := by
+  induction n generalizing s with
+  | zero => exact ⟨[], s, Run.nil s, Nat.zero_le _, hd, hw.ppAlive hd, hw.updAlive hd⟩
+  | succ n ih =>
+    -- one more round of the callback: (fire,) run
+    have hu := hw.updAlive hd
+    cases hupd : s.upd with
+    | stopped => exact absurd hupd hu
+    | running =>
+      have h1 : next s .updRun = some { s with upd := .pending } := by simp [next, hupd]
+      obtain ⟨ls, s', hr, hn, hx⟩ := ih (C15_wf_next hw h1) (by simpa using hd)
+      exact ⟨.updRun :: ls, s', Run.cons h1 hr, by simp [reputs]; omega, hx⟩
+    | pending =>
+      have h1 : next s (.updFire 0) = some { s with upd := .running, prod := s.prod + 0 } := by
+        simp [next, hupd, hd]
+      have hw1 := C15_wf_next hw h1
+      have h2 : next { s with upd := .running, prod := s.prod + 0 } .updRun
+          = some { s with upd := .pending, prod := s.prod + 0 } := by simp [next]
+      obtain ⟨ls, s', hr, hn, hx⟩ := ih (C15_wf_next hw1 h2) (by simpa using hd)
+      exact ⟨.updFire 0 :: .updRun :: ls, s', Run.cons h1 (Run.cons h2 hr), by simp [reputs]; omega, hx⟩
+
+/-! #### the listener's `monitor` -/
+
+inductive MRun : Lst → List MLbl → Lst → Prop
+  | nil (l : Lst) : MRun l [] l
+  | cons {l l' l'' : Lst} {a : MLbl} {as : List MLbl} : mnext l a = some l' → MRun l' as l'' → MRun l (a :: as) l''
+
+def monW : Mon → Nat
+  | .processing => 2 | .reading => 1 | .exited => 0
+
+/-- `monitor` returns on the read error of the closed transport: after the transport is closed
+every execution of the listener's goroutine has at most 2 steps, and it cannot stop anywhere but
+at its `return`. -/
+theorem C15_monitor_exits {l l' : Lst} {as : List MLbl} (hc : l.connOpen = false) (hr : MRun l as l') :
+    as.length + monW l'.mon ≤ monW l.mon ∧ l'.connOpen = false ∧
+    ((∀ a, mnext l' a = none) → l'.mon = .exited) := by
+  induction hr with
+  | nil l =>
+    refine ⟨by simp, hc, ?_⟩
+    intro hstuck
+    obtain ⟨co, mon⟩ := l
+    cases mon with
+    | exited => rfl
+    | reading => have := hstuck (.ret true); simp_all [mnext]
+    | processing => have := hstuck .processed; simp [mnext] at this
+  | @cons l l1 l2 a as h _ ih =>
+    obtain ⟨co, mon⟩ := l
+    simp only at hc; subst hc
+    cases a with
+    | ret err =>
+      simp only [mnext] at h
+      split at h
+      · rename_i hg
+        injection h with h; subst h
+        have he : err = true := by simpa using hg.2
+        subst he
+        have := ih rfl
+        simp_all [monW] <;> omega
+      · cases h
+    | processed =>
+      simp only [mnext] at h
+      split at h
+      · rename_i hg
+        injection h with h; subst h
+        have := ih rfl
+        simp_all [monW] <;> omega
+      · cases h
+    | closeTransport => simp [mnext] at h
+
+/-! #### several sessions: any interleaving -/
+
+/-- a system of sessions; a step is a step of one of them -/
+inductive SRun : List Sess → Nat → List Sess → Prop
+  | nil (ss : List Sess) : SRun ss 0 ss
+  | cons {pre post : List Sess} {s s' : Sess} {l : Lbl} {n : Nat} {ss' : List Sess} :
+      next s l = some s' → SRun (pre ++ s' :: post) n ss' → SRun (pre ++ s :: post) (n + 1) ss'
+
+def muAll (ss : List Sess) : Nat := (ss.map mu).sum
+
+/-- **Close terminates, system-wide**: once all sessions (and the transports of client sessions)
+are closed, every interleaving of all their goroutines and callbacks has at most `Σ mu` steps. -/
+theorem C15_close_terminates_all {ss ss' : List Sess} {n : Nat} (hc : ∀ s ∈ ss, Closed s)
+    (hr : SRun ss n ss') : n + muAll ss' ≤ muAll ss ∧ ∀ s ∈ ss', Closed s := by
+  induction hr with
+  | nil ss => exact ⟨by simp, hc⟩
+  | @cons pre post s s' l n ss' h _ ih =>
+    have hcs : Closed s := hc s (by simp)
+    have hm := C15_close_measure hcs h
+    have hc' : ∀ x ∈ pre ++ s' :: post, Closed x := by
+      intro x hx
+      simp only [List.mem_append, List.mem_cons] at hx
+      rcases hx with hx | hx | hx
+      · exact hc x (by simp [hx])
+      · subst hx; exact C15_closed_stable hcs h
+      · exact hc x (by simp [hx])
+    obtain ⟨ih1, ih2⟩ := ih hc'
+    refine ⟨?_, ih2⟩
+    simp only [muAll, List.map_append, List.map_cons, List.sum_append, List.sum_cons] at *
+    omega
+
+-- non-vacuity: a client session on a caller-owned transport, closed mid-transfer with 3 requests
+-- queued, chDie disabled, an update past its die test and 5 output calls still in flight
+def exMid : Sess :=
+  { die := true, ownConn := false, connOpen := false, q := 3, tx := 7, pp := .selNoDie, upd := .running,
+    rl := .got, prod := 5 }
+example : WF exMid := by constructor <;> simp [exMid]
+example : Closed exMid := by simp [Closed, exMid]
+example : mu exMid = 26 := by decide
+-- and the un-accepted session of the finding
+example : WF (Sess.new false false) ∧ (Sess.new false false).die = false := ⟨C15_wf_new _ _, rfl⟩
+example : (⟨false, .reading⟩ : Lst).connOpen = false := rfl
+
 end KcpVerif.Props
